@@ -258,7 +258,13 @@ def localsOf (b : Backend) : List String :=
   it back through `decref`);
 * `incref` / `decref` / `_incref` / `_decref` move exactly one reference.
 
-Relative to the reader and to `producerKind` / `isRefFn` / `isDerefFn` in `DD/CWrap.lean`. -/
+Relative to the reader and to `producerKind` / `isRefFn` / `isDerefFn` in `DD/CWrap.lean`.
+Not modelled (hence not claimed): exceptions raised inside callees between a `ref` and its
+`deref`, references parked in containers (`_compose`, `_c_compose`, `_multi_compose`:
+see `Gen.cUncovered`), a handle that is rebound inside a loop while its node is still in a C
+array, and the interplay "`init` raised, `__dealloc__` still runs" (CUDD wrappers are guarded
+by `_ref == 0`; `sylvan.pyx` dereferences the zero-initialised node attribute).
+(`decide +kernel`: the `Decidable` instance is evaluated by the kernel only — about 460 paths.) -/
 theorem refTraces_balanced :
     (Gen.cRefTraces.all fun m => methodOk (localsOf m.backend) m) = true := by decide +kernel
 
